@@ -11,6 +11,7 @@ R14.3 position completeness: every Location built for a token that covers input 
       (start_line, start_column, end_line, end_column, start, end).
 R14.5 position mapping: in TokenIter::token_from_match each LocationBuilder setter receives the scnr2 match component of the
       same meaning (start_line <- start_position.line, end_column <- end_position.column, start <- span.start, ...).
+R14.6 TokenIter::new and the TokenStream value receive the same (clamped) k.
 R14.4 the end-of-input tokens are located at input.len(): a trailing unmatched gap is only visible to TokenBuffer::add
       because EOI starts at the end of the input.
 """
@@ -290,3 +291,34 @@ def check(ctx):
                   "%s <- match.%s" % (setter, ".".join(want)),
                   "LocationBuilder::%s is fed from match.%s instead of match.%s: token positions do not match the text"
                   % (setter, ".".join(got), ".".join(want)), where(tfm))
+    same_k_for_iterator_and_stream(ctx, facts)
+
+
+def same_k_for_iterator_and_stream(ctx, facts):
+    """R14.6 the token iterator is created with the lookahead size the stream itself uses: in TokenStream::new_with_skip_tokens the
+    k handed to TokenIter::new and the k stored in the stream are the same (clamped) value.  TokenIter delivers k end-of-input
+    tokens located at input.len() (R14.4); with the raw k = 0 of a grammar that needs no lookahead it delivers none, the fillers
+    carry no position, and unmatched text at the very end of the input never becomes a gap token."""
+    TS = "parol_runtime::lexer::token_stream::TokenStream"
+    b = facts.body(TS + "::new_with_skip_tokens")
+    it = [c for c in b.calls() if (c.path or "").endswith("token_iter::TokenIter::new")]
+    if len(it) != 1:
+        raise AnchorMissing("new_with_skip_tokens: expected one TokenIter::new call")
+    kops = [a for a in it[0].args if a[0] in ("c", "m") and b.local_ty(a[1][0]) == "usize"]
+    fields = [f for f, _t in facts.adt_fields(TS)]
+    stream_k = None
+    for bi, si, p, rv, line, mac in b.assigns():
+        if rv[0] == "agg" and rv[2] == TS and "k" in fields and len(rv[4]) == len(fields):
+            stream_k = rv[4][fields.index("k")]
+    if not kops or stream_k is None:
+        raise AnchorMissing("new_with_skip_tokens: cannot find the k of TokenIter::new / of the TokenStream value")
+    def root(o):
+        rp = raw_operand_place(b, o)
+        return rp[0] if rp else None
+    ok = stream_k[0] in ("c", "m") and root(kops[-1]) == root(stream_k)
+    ctx.check(ok, "R14.6", "new_with_skip_tokens|iterator-and-stream-share-k",
+              "TokenIter::new and the TokenStream value receive the same k",
+              "TokenIter::new receives `%s` but the stream stores `%s`: for a grammar that needs no lookahead (k = 0) the iterator "
+              "emits no end-of-input token located at the end of the input, so unmatched text behind the last token is lost from the "
+              "token sequence and the parse tree (`S: \"a\" \"b\";` with %%allow_unmatched and the input `ab??`)"
+              % (b.local_name(root(kops[-1])) or root(kops[-1]), b.local_name(root(stream_k)) or root(stream_k)), where(b, it[0].line))
